@@ -1,5 +1,6 @@
 import XPathV.Model.Api
 import XPathV.Lemmas.Facts
+import XPathV.Lemmas.NameSem
 /-!
 # C14 — name tests, namespaces and name functions identify nodes as documented
 -/
@@ -11,7 +12,8 @@ principal type whose prefix and local name are equal to the test's -/
 theorem nametest_noNS (d : Doc) (cfg : ECfg) (a : AxisInfo) (r : Ref) (hn : a.hasNS = false) (hl : a.lname ≠ "") :
     nodeTestM d cfg a r = ((a.typeTest == nodeType d r || a.typeTest == .all) &&
       (a.lname == localName d r && a.pfx == prefixOf d r)) := by
-  simp [nodeTestM, hn, hl]
+  have hl' : (a.lname == "") = false := by simpa using hl
+  simp [nodeTestM, hn, hl, hl']
 
 /-- an unprefixed test matches only unprefixed nodes -/
 theorem unprefixed_matches_unprefixed (d : Doc) (cfg : ECfg) (a : AxisInfo) (r : Ref) (hn : a.hasNS = false)
@@ -26,7 +28,8 @@ theorem nametest_NS (d : Doc) (cfg : ECfg) (a : AxisInfo) (r : Ref) (hn : a.hasN
     (hl : a.lname ≠ "") :
     nodeTestM d cfg a r = ((a.typeTest == nodeType d r || a.typeTest == .all) &&
       (a.lname == localName d r && a.nsURI == nsURL d r)) := by
-  simp [nodeTestM, hn, hi, hl]
+  have hl' : (a.lname == "") = false := by simpa using hl
+  simp [nodeTestM, hn, hi, hl, hl']
 
 /-- the model's node test is the specification's (§2.3) when the navigator exposes URIs -/
 theorem nodeTest_spec (d : Doc) (cfg : ECfg) (a : AxisInfo) (r : Ref) (hi : cfg.nsIface = true) (hl : a.lname ≠ "") :
@@ -64,5 +67,131 @@ theorem namespace_uri_first (d : Doc) (cfg : ECfg) (c r : Ref) (rest : List Ref)
 theorem name_fn_empty (d : Doc) (cfg : ECfg) (c : Ref) (a : List (Except EErr (MVal F))) :
     callFn (F := F) d cfg "name" .nil c a (some []) = .ok (.str "") := by
   simp [callFn]
+
+/-- **`prefix:*`** (XPath's `NCName:*`): every node of the principal type in the namespace of the
+prefix, whatever its local name — the URI bound to the prefix under a map (and a navigator exposing
+URIs), the same prefix otherwise.  (On the pinned tree `axisPredicate` compared the empty local name
+the parser records for `*`, so `p:*` matched nothing; repaired by a `fix:` commit.) -/
+theorem nametest_prefix_wildcard (d : Doc) (cfg : ECfg) (axis : String) (mt : NType)
+    (pfx prop uri : String) (hn : Bool) (hmt : mt ≠ .all) (hp : pfx ≠ "") (x : Ref) :
+    nodeTestM d cfg ⟨axis, mt, pfx, "", prop, hn, uri⟩ x = true ↔
+      (nodeType d x = mt ∧ (if (cfg.nsIface && hn) = true then nsURL d x = uri else prefixOf d x = pfx)) :=
+  NameSem.test_prefix_wildcard d cfg axis mt pfx prop uri hn hmt hp x
+
+open XPathV.PathSem XPathV.NameSem in
+/-- **what the parser records for a name test** (`parseNodeTest`): no map — prefix and local name
+as scanned; a map binding the prefix — the bound URI; an unprefixed name — never bound; an unbound
+prefix — the compile error -/
+theorem C14_parser_records (cfg : PCfg) (inp : Ast) (axis : String) (mt : NType) (st st1 : PState)
+    (ht : st.s.typ = .name) (hnf : (st.s.canBeFunc && isNodeType st.s) = false)
+    (hnext : st.next = .ok st1) :
+    parseNodeTest cfg inp axis mt st =
+      match nameInfo cfg.ns axis mt st.s.pfx (scannedLocal st st1) with
+      | some a => .ok (.axis a inp, st1)
+      | none => .error .prefixUndefined :=
+  parseNodeTest_name_spec cfg inp axis mt st st1 ht hnf hnext
+
+open XPathV.PathSem XPathV.NameSem in
+/-- **one step on each of the twelve axes, no namespace map**: exactly the nodes on the axis of the
+principal node type whose prefix *and* local name are those of the test (an unprefixed test
+therefore matches only unprefixed nodes) -/
+theorem C14_step_without_map {d : Doc} (wf : WF d) (cfg : ECfg) (hinj : HashInj d cfg)
+    (axis : String) (ha : axis ∈ axes12) (mt : NType) (hmt : mt ≠ .all)
+    (pfx lname : String) (hl : lname ≠ "") (c : Ref) (hc : validRef d c = true) :
+    ∃ out, sel (F := F) d cfg (stepPlan ⟨axis, mt, pfx, lname, "", false, ""⟩ .context) c = .ok out ∧
+      ∀ x, x ∈ refs out ↔
+        (x ∈ (Spec.axisNodes d axis c).getD [] ∧
+          nodeType d x = mt ∧ prefixOf d x = pfx ∧ localName d x = lname) :=
+  step_noNS wf cfg hinj axis ha mt hmt pfx lname hl c hc
+
+open XPathV.PathSem XPathV.NameSem in
+/-- **… with a map binding the prefix** (`CompileWithNS`, navigator exposing URIs): by (bound URI,
+local name); the prefix used in the document does not occur in the statement -/
+theorem C14_step_with_map {d : Doc} (wf : WF d) (cfg : ECfg) (hinj : HashInj d cfg) (hi : cfg.nsIface = true)
+    (axis : String) (ha : axis ∈ axes12) (mt : NType) (hmt : mt ≠ .all)
+    (pfx lname uri : String) (hl : lname ≠ "") (c : Ref) (hc : validRef d c = true) :
+    ∃ out, sel (F := F) d cfg (stepPlan ⟨axis, mt, pfx, lname, "", true, uri⟩ .context) c = .ok out ∧
+      ∀ x, x ∈ refs out ↔
+        (x ∈ (Spec.axisNodes d axis c).getD [] ∧
+          nodeType d x = mt ∧ nsURL d x = uri ∧ localName d x = lname) :=
+  step_NS wf cfg hinj hi axis ha mt hmt pfx lname uri hl c hc
+
+open XPathV.PathSem XPathV.NameSem in
+/-- **… with a map but a navigator without `NamespaceURL()`**: the binding is ignored and the test
+compares (prefix as written, local name) with the document's prefixes — the third branch -/
+theorem C14_step_with_map_no_uri_interface {d : Doc} (wf : WF d) (cfg : ECfg) (hinj : HashInj d cfg)
+    (hi : cfg.nsIface = false) (axis : String) (ha : axis ∈ axes12) (mt : NType)
+    (hmt : mt ≠ .all) (pfx lname uri : String) (hl : lname ≠ "") (c : Ref) (hc : validRef d c = true) :
+    ∃ out, sel (F := F) d cfg (stepPlan ⟨axis, mt, pfx, lname, "", true, uri⟩ .context) c = .ok out ∧
+      ∀ x, x ∈ refs out ↔
+        (x ∈ (Spec.axisNodes d axis c).getD [] ∧
+          nodeType d x = mt ∧ prefixOf d x = pfx ∧ localName d x = lname) :=
+  step_NS_noIface wf cfg hinj hi axis ha mt hmt pfx lname uri hl c hc
+
+open XPathV.PathSem XPathV.NameSem in
+/-- **C14 (main theorem, whole paths, through the builder)**: for every predicate-free path whose
+steps are name tests as the parser records them under the map `ns` (any of the twelve axes), the
+built plan selects exactly the oracle's node set, which is the denotation by (principal type, local
+name, bound URI or prefix) -/
+theorem C14_main {d : Doc} (wf : WF d) (cfg : ECfg) (hns : cfg.nsIface = true)
+    (hinj : HashInj d cfg) (regexOk : RegexOk) (limit : Nat) (sdf : Bool)
+    (ns : Option (List (String × String))) (p : Ast) (hp : NamePath ns p)
+    (st : BState) (o : BOut) (hb : build regexOk limit true sdf p {} st = .ok o)
+    (c : Ref) (hc : validRef d c = true) :
+    ∃ out nodes g, sel (F := F) d cfg o.q c = .ok out ∧
+      Spec.eval (F := F) d p ⟨c, 1, 1⟩ = .ok (.val (.nodes nodes) g) ∧
+      (∀ x, x ∈ refs out ↔ x ∈ nodes) ∧ (∀ x, x ∈ refs out ↔ nameDen d p c x) :=
+  NameSem.C14_main wf cfg hns hinj regexOk limit sdf ns p hp st o hb c hc
+
+open XPathV.PathSem XPathV.NameSem in
+/-- **regardless of the prefix used in the document**: two documents with the same shape, local
+names and namespace URIs (prefixes arbitrary) give the same node set for every path of bound name
+tests -/
+theorem C14_document_prefixes_irrelevant {d₁ d₂ : Doc} (wf₁ : WF d₁) (hs : SameNames d₁ d₂) (cfg : ECfg)
+    (hi : cfg.nsIface = true) (hinj₁ : HashInj d₁ cfg) (hinj₂ : HashInj d₂ cfg)
+    (regexOk : RegexOk) (limit : Nat) (sdf : Bool)
+    (ns : Option (List (String × String))) (p : Ast) (hp : NamePath ns p) (hb : AllBound p)
+    (st : BState) (o : BOut) (hbd : build regexOk limit true sdf p {} st = .ok o)
+    (c : Ref) (hc : validRef d₁ c = true) :
+    ∃ out₁ out₂, sel (F := F) d₁ cfg o.q c = .ok out₁ ∧ sel (F := F) d₂ cfg o.q c = .ok out₂ ∧
+      ∀ x, x ∈ refs out₁ ↔ x ∈ refs out₂ :=
+  prefix_irrelevant_path wf₁ hs cfg hi hinj₁ hinj₂ regexOk limit sdf ns p hp hb st o hbd c hc
+
+open XPathV.NameSem in
+/-- **an unbound prefix is a compile error**, from the expression text (`prefix:name` as the whole
+expression; `@…` and `axis::…` variants in `Lemmas/NameSem.lean`) -/
+theorem C14_unbound_prefix_from_text (cc : CompileCfg) (m : List (String × String)) (text : List Char)
+    (s s1 : Scan) (hinit : Scan.init text = .ok s) (ht : s.typ = .name) (hcf : s.canBeFunc = false)
+    (hnext : s.nextItem = .ok s1) (he : s1.typ = .eof)
+    (hp : s.pfx ≠ "") (hl : m.lookup s.pfx = none) :
+    compile cc (some m) text = .error (.parse .prefixUndefined) :=
+  compile_unbound_prefix cc m text s s1 hinit ht hcf hnext he hp hl
+
+open XPathV.NameSem in
+/-- **name functions with no argument, through the builder**: `name()`, `local-name()`,
+`namespace-uri()` evaluate to the qualified name / local name / namespace URI of the context node,
+which is the oracle's value -/
+theorem C14_name_functions_no_argument (d : Doc) (cfg : ECfg) (hi : cfg.nsIface = true) (regexOk : RegexOk)
+    (limit : Nat) (snt sdf : Bool) (nm pfx : String) (hnm : nm ∈ nameFns) (fl : Flags) (st : BState) (o : BOut)
+    (hb : build regexOk limit snt sdf (.call nm pfx .anil) fl st = .ok o) (c : Ref) (i n : Nat) :
+    evalP (F := F) d cfg o.q c = .ok (.str (specName d nm c)) ∧
+      Spec.eval (F := F) d (.call nm pfx .anil) ⟨c, i, n⟩ = .ok (.val (.str (specName d nm c)) none) :=
+  name0_sem d cfg hi regexOk limit snt sdf nm pfx hnm fl st o hb c i n
+
+open XPathV.PathSem XPathV.NameSem in
+/-- **name functions with a node-set argument** (a flat path: child/attribute/self steps): the name
+of the first node of the argument in document order, `""` for the empty set — engine = oracle -/
+theorem C14_name_functions_nodeset_argument {d : Doc} (wf : WF d) (cfg : ECfg) (hi : cfg.nsIface = true)
+    (hinj : HashInj d cfg) (regexOk : RegexOk) (limit : Nat) (sdf : Bool) (nm pfx : String)
+    (hnm : nm ∈ nameFns) (p : Ast) (hp : ArithSem.FlatPath p) (fl : Flags) (st : BState) (o : BOut)
+    (hb : build regexOk limit true sdf (.call nm pfx (.acons p .anil)) fl st = .ok o)
+    (c : Ref) (hc : validRef d c = true) (i n : Nat) :
+    ∃ (ns : List Ref) (g : Option (List (List Ref))),
+      Spec.eval (F := F) d p ⟨c, 1, 1⟩ = .ok (.val (.nodes ns) g) ∧
+      ns.Pairwise (fun a b => Ref.lt a b = true) ∧
+      evalP (F := F) d cfg o.q c = .ok (.str (firstOr (specName d nm) ns)) ∧
+      Spec.eval (F := F) d (.call nm pfx (.acons p .anil)) ⟨c, i, n⟩ =
+        .ok (.val (.str (firstOr (specName d nm) ns)) none) :=
+  name1_flat_sem wf cfg hi hinj regexOk limit sdf nm pfx hnm p hp fl st o hb c hc i n
 
 end XPathV.Theorems.C14
